@@ -55,6 +55,7 @@ def make_tree(users):
         b = base_of(u)
         t[b] = DIR
         t[b + "/d"] = DIR
+        t[b + "/d/only-" + (u or "anon")] = b"mine"
         t[b + "/whoami"] = b"x" * SIZES[u]
     return t
 
@@ -62,9 +63,10 @@ def make_tree(users):
 class SlowManager(aioftp.MemoryUserManager):
     """the shipped manager with a directory service that takes time: get_user / authenticate really suspend"""
 
-    def __init__(self, users, delay):
-        super().__init__(users)
+    def __init__(self, users, delay, timeout=None, logout_delay=None):
+        super().__init__(users, timeout=timeout)
         self.delay = delay
+        self.logout_delay = delay if logout_delay is None else logout_delay
 
     async def get_user(self, login):
         await asyncio.sleep(self.delay)
@@ -75,7 +77,7 @@ class SlowManager(aioftp.MemoryUserManager):
         return await super().authenticate(user, password)
 
     async def notify_logout(self, user):
-        await asyncio.sleep(self.delay)
+        await asyncio.sleep(self.logout_delay)
         return await super().notify_logout(user)
 
 
@@ -111,7 +113,7 @@ async def burst_session(net, hyg, plan, w, users, viol, mon):
     mon["backend_untouched"] += 1
     where = f"after {pre}, burst {all_lines} (user manager delay {plan.get('delay')}, back-end delay {plan.get('bdelay')}): replies {codes_all}"
     served = [(ln, c) for ln, c in zip(lines[1:], codes[1:]) if ln.split(" ")[0].upper() in GUARDED and c[0] in "123"]
-    if codes[:1] != ["331"]:
+    if codes[:1] != ["331"] and not (plan.get("any_refusal") and codes[:1] == ["530"]):
         viol.append({"key": "login-reply-differs:USER", "msg": f"{where}: replies {codes}"})
     if served:
         viol.append({"key": f"served-before-login:{served[0][0].split(' ')[0].upper()}",
@@ -138,7 +140,8 @@ async def session(net, hyg, plan):
         extra = {"home_path": "/d"}         # a non-default home: still nothing of the tree is looked at before the login is complete
     au = [aioftp.User(u, pw, base_path=base_of(u), **extra, **({"maximum_connections": 1} if ucfg == "limit" and u in ("alice", "carol") else {}))
           for u, pw in users.items()]
-    w = W.World(net, tree=None, users=SlowManager(au, plan["delay"]) if plan.get("delay") else au)
+    w = W.World(net, tree=None, users=SlowManager(au, plan["delay"], timeout=plan.get("manager_timeout"), logout_delay=plan.get("logout_delay"))
+                if (plan.get("delay") or plan.get("logout_delay")) else au)
     await w.start()
     w.populate(make_tree(users))
     viol = []
@@ -179,6 +182,10 @@ async def session(net, hyg, plan):
             transcript = [[f"{verb} {target}", str(r1)[:8]], ["USER " + victim, str(r2)[:8]], ["data", st]]
             vb = base_of(victim)
             changed = sorted(k for k in set(w.tree()) | set(tree0) if (k == vb or k.startswith(vb + "/")) and w.tree().get(k) != tree0.get(k))
+            if verb in ("LIST", "MLSD") and ("only-" + victim).encode() in bytes(got):
+                viol.append({"key": f"served-before-login:{verb}:late-data",
+                             "msg": f"logged in as {first!r}: {verb} /d (150), USER {victim} (no password), then the data connection: the listing "
+                                    f"shows {victim!r}'s directory: {bytes(got)[:120]!r}"})
             if verb == "RETR" and len(got) == SIZES[victim]:
                 viol.append({"key": "served-before-login:RETR:late-data",
                              "msg": f"logged in as {first!r}: RETR /whoami (150), USER {victim} (no password), then the data connection: "
@@ -351,6 +358,17 @@ def gen_cases(tier, seed):
             for victim in ("alice", "carol"):
                 if first != victim:
                     plans.append({"users": "A", "seed": seed, "late_data": [first, verb, victim]})
+    # ABOR (and other commands that need no login) between two USERs written in one piece, slow user manager
+    for mid in (["ABOR"], ["ABOR", "NOOP"], ["SYST"], ["ABOR", "ABOR"]):
+        for acct in ("alice", "carol"):
+            for delay in (0.003, 0.02):
+                burst = ["USER anonymous"] + mid + ["USER " + acct, "PWD", "MKD /pwned", "MLST /whoami", "EPSV"]
+                plans.append({"users": "A", "seed": seed, "pre": [], "lead": 1 + len(mid), "burst": burst, "delay": delay, "bdelay": 0})
+    # a user manager with a time-out of its own and a slow logout notification: the second USER still discards the login
+    for acct in ("alice", "carol"):
+        for pre in (["USER bob"], ["USER anonymous", "CWD /d"]):
+            plans.append({"users": "A", "seed": seed, "pre": pre, "burst": ["USER " + acct, "PWD", "MKD /pwned", "MLST /whoami"], "delay": 0,
+                          "logout_delay": 0.3, "manager_timeout": 0.05, "bdelay": 0, "any_refusal": True})
     # re-USER and further commands written in one piece, user manager and/or back end that really suspend
     tails = [["PWD", "MKD /pwned", "MLST /whoami", "PASV"], ["CWD /d", "PWD"], ["EPSV", "RETR /whoami"], ["DELE /whoami", "RNFR /whoami"],
              ["STOR /up", "LIST /"], ["PASS wrong", "MLST /whoami", "MKD /x"], ["MLSD /d"], ["PWD"] * 6]
